@@ -709,17 +709,21 @@ def s3_case(m, spec, nv, extra):
     t = BYAB[ab]
     sg = m.signed(t) and t is not BOOL
     ft = CT('bf', 'bf', 'int', w, sg, 0)          # the field as an integer type
-    if t.rank > INT.rank:
-        pt = t        # long-based fields: gcc computes in a type of the field's width, clang in long; see fits_gcc
+    # promoted type of the field: gcc and clang agree for widths <= 32 (int, or unsigned for an unsigned 32-bit field, whatever the
+    # declared base type); for wider fields of long type clang computes in long, gcc in a type of the field's width: see fits_gcc
+    if w < 32 or (w == 32 and sg):
+        pt = INT
+    elif w == 32:
+        pt = UINT
     else:
-        pt = INT if (w < 32 or sg) else UINT
+        pt = t
     fvals = _bf_vals(m, t, w, nv, extra)
     bvals = m.values(t, nv, extra)
     tup, filt = [], 0        # (background, initial field value, operand)
 
     def fits_gcc(v):
         # gcc computes long-based fields wider than int in a type of the field's width: keep intermediate results inside it
-        return t.rank <= INT.rank or w <= 32 or (m.tmin(ft) <= v <= m.tmax(ft))
+        return w <= 32 or (m.tmin(ft) <= v <= m.tmax(ft))
 
     if op == 'write':
         ex = 'p->f = v'
@@ -732,8 +736,8 @@ def s3_case(m, spec, nv, extra):
             for i in fvals:
                 tup.append((bg, i, 0))
     elif op == 'arith':
-        if t.rank > INT.rank:
-            return None          # promoted type of a long bit-field is implementation-defined (gcc: the field width, clang: long)
+        if 32 < w < 64:
+            return None          # type of a long bit-field wider than int in arithmetic: gcc uses the field width, clang long
         ex = '(p->f - 1) / 2 + (p->f < v)'
         for i in fvals:
             for v in bvals[:3]:
@@ -763,7 +767,7 @@ def s3_case(m, spec, nv, extra):
                 for v in rv:
                     try:
                         _, x = m.binop(o, pt, i, t, v)
-                        if o in ('<<', '>>') and t.rank > INT.rank and w > 32 and v >= w:
+                        if o in ('<<', '>>') and w > 32 and v >= w:
                             raise UB('gcc field-width type shift')
                         if sg and o in ('<<', '+', '-', '*') and not fits_gcc(x):
                             raise UB('gcc field-width type')
@@ -772,7 +776,7 @@ def s3_case(m, spec, nv, extra):
                         filt += 1
     if not tup:
         return Case('S3', None, None, '', '', [], filtered=filt)
-    mem = ('%s pad : %d; ' % (t.name, fill) if fill else '') + '%s f : %d; %s g : %d;' % (t.name, w, t.name, 1 if t is BOOL else 3)
+    mem = ('%s pad : %d; ' % ('unsigned char' if t is BOOL else t.name, fill) if fill else '') + '%s f : %d; %s g : %d;' % (t.name, w, t.name, 1 if t is BOOL else 3)
     fn = 'struct s@ { %s };\nlong long f@(struct s@ *p, %s v) { return %s; }\n' % (mem, t.name, ex)
     decl = fn + 'static int G@[] = {%s};\n' % ','.join(str(b) for b, _, _ in tup) + tab(m, t, 'I@', [m.conv(i, t) for _, i, _ in tup]) + tab(m, t, 'V@', [v for _, _, v in tup])
     pad = 's.pad = G@[i]; ' if fill else ''
